@@ -441,6 +441,29 @@ class Harness:
             out['s_after'] = np.array(unwrap(sim.s)).copy()
         return out
 
+    def restore_sim(self):
+        import pickle
+        sim = self.sim
+        wrapped = {}
+        for name in ('c', 'abuf', 's'):
+            a = getattr(sim, name)
+            if isinstance(a, Proxy):
+                wrapped[name] = a
+                setattr(sim, name, a.real)
+        data = pickle.dumps(sim)
+        new = pickle.loads(data)
+        for name, pr in wrapped.items():
+            pr.real = getattr(new, name)
+            pr.flat = None
+            setattr(new, name, pr)
+        if hasattr(sim, '_block_dim') and not hasattr(new, '_block_dim'): new._block_dim = sim._block_dim
+        self.sim = new
+        self.circuit = new.circuit
+        self.meta = MapMeta(new, new.circuit)
+        if self.mon is not None: self.mon.meta = self.meta
+        self.res.fault('F-restore-simulator')
+        self.res.count('pickled_bytes', len(data))
+
     def permute_rows(self, rp):
         import random
         meta = self.meta
@@ -470,12 +493,15 @@ class Harness:
 
 
 def run_config(built, case, cfg, res, monitors=('M1', 'M2', 'M3')):
-    """Construct a simulator for cfg, run all batches of the case on it. Returns (harness, [batch outcomes])."""
+    """Construct a simulator for cfg, run all batches of the case on it. Returns (harness, [batch outcomes]).
+    cfg['restore_after'] = [batch numbers]: F-restore of the simulator object itself (pickle -> drop -> unpickle) after
+    those batches; the remaining batches run on the restored object."""
     h = Harness(built, case, cfg, res, monitors)
     outs = []
     with h.session():
         for bno, batch in enumerate(case['batches']):
             outs.append(h.run_batch(batch, bno))
+            if bno in (cfg.get('restore_after') or ()) and bno + 1 < len(case['batches']): h.restore_sim()
     return h, outs
 
 
